@@ -6,19 +6,26 @@ import ParryModel.C04.Theorems1
 /-!
 # C06 theorems, part 6: the cell walk of the 3-D height-field shape cast covers the path of the box
 
-The statement `walk_covers_full` that `Theorems3.lean` left open, for a velocity with both horizontal components non-zero:
+The statement `walk_covers_full` that `Theorems3.lean` left open, now proved for EVERY velocity (`walk_covers_full_generic`):
 
 * `axis_footprint`: while the centre is in the closed cell `c`, every cell the box meets along that axis lies in the range kept
   around `c` (the relation `Rel` between range and cell: one extra line on each side of the quantised box — the "enlarge by 1"
-  of the code).  `rel_init`: the enlarged ranges of the start state satisfy `Rel`; it is preserved by shifting.
-* `axis_left`: once the range has left the field on the side the box is moving to (`left_i` / `left_j`), no in-field cell is
-  met at any later time — the third `break` is sound.
-* `walkLoop_covers_path`: main induction.  From a state whose cell contains the centre at time `t0`, whose ranges satisfy `Rel`
-  and whose block is covered by the trace, a walk that ends normally (`.done`, whatever the reason: `max_time_of_impact`, range
-  left the field) has in its trace every in-field cell that the box meets at some time in `[t0, max_time_of_impact]`.
-* `walk_covers_from_entry`: the same for the whole `walk` (pre-advance, enlarged ranges, initial block, loop), for all times from
-  the pre-advance time on; `walk_preadvance_sound`: before the pre-advance time (and when `cast_local_ray` on the Minkowski box
-  answers `None`) the box is disjoint from the field's box (from C04's `aabb_cast_solid_firstHit`).
+  of the code).  `rel_init_x/z`: the enlarged ranges of the start state satisfy `Rel`; it is preserved by shifting.
+  A static axis (zero velocity component, range not enlarged, never shifted: `cellMove_zero_x/z`) keeps the fixed footprint of
+  the box (`static_init_x/z`); `AxInv` is the disjunction of the two.
+* `axis_left` / `AxInv.left`: once the range has left the field on the side the box is moving to (`left_i` / `left_j`), no
+  in-field cell is met at any later time — the third `break` is sound.
+* `tracks_core`, `tracks_core_gen`: one step of the centre ray for both / at least one non-zero horizontal component (the zero
+  component's boundary time is `Real::MAX`; `cellMove` then answers only if the other boundary comes strictly first).
+* `walkLoop_covers_path`: main induction.  From a state whose cell contains the centre at time `t0`, whose ranges satisfy
+  `AxInv` and whose block is covered by the trace, a walk that ends normally (`.done`, whatever the reason:
+  `max_time_of_impact`, range left the field) has in its trace every in-field cell that the box meets at some time in
+  `[t0, max_time_of_impact]`.
+* `walk_covers_from_entry`: the same for the whole `walk` (pre-advance, enlarged ranges, initial block, loop; purely vertical
+  motion returns after the initial block), for all times from the pre-advance time on; `walk_covers_full_generic` adds that
+  before the pre-advance time the box is disjoint from the field's box (C04's `aabb_cast_solid_firstHit`).
+Not covered: a walk that does not end with `.done` (fuel exhausted: the loop's termination is not proved; `signumOfZero`: a
+boundary time ≥ `Real::MAX` along the moving axis, outside the domain D).
 -/
 namespace C06
 open Model Model.HW
@@ -176,106 +183,6 @@ theorem tracks_core (q : Quant K) (hq : LawfulQuant q) (h : HF3 K) (hi : 0 < h.n
         rw [e1, e2, min_eq_right (le_of_lt hgt), add_zero]
         exact ⟨ax2 rz az1 (le_of_lt hgt), az3⟩
 
-/-! ## the loop -/
-
-/-- the box of half-widths `(wx, wz)` centred on the ray point at time `t` meets the open rectangle of cell `(i, j)` -/
-def Meets (q : Quant K) (h : HF3 K) (o d : V3 K) (wx wz : K) (i j : Int) (t : K) : Prop :=
-  (o.x + t * d.x - wx < XL sq q h (j + 1) ∧ XL sq q h j < o.x + t * d.x + wx) ∧
-  (o.z + t * d.z - wz < ZL sq q h (i + 1) ∧ ZL sq q h i < o.z + t * d.z + wz)
-
-/-- the ranges of a state keep one line of slack around the cell on both axes, and the block is covered by the trace -/
-def WInv (q : Quant K) (h : HF3 K) (wx wz : K) (s : St) : Prop :=
-  Rel (XL sq q h) wx s.cell.2 s.rj.1 s.rj.2 ∧ Rel (ZL sq q h) wz s.cell.1 s.ri.1 s.ri.2 ∧ Covered h.ni h.nj s.ri s.rj s.out
-
-set_option maxHeartbeats 1000000 in
-/-- **The loop covers the path of the box.**  Both horizontal velocity components non-zero.  From a state whose cell contains the
-centre at time `t0 ≥ 0` and which satisfies `WInv`, a loop that ends normally (`.done`) has in its trace every in-field cell whose
-open rectangle the box meets at some time of `[t0, max_time_of_impact]` — whichever of the `break`s ended it — and never drops a
-cell from the trace. -/
-theorem walkLoop_covers_path (q : Quant K) (hq : LawfulQuant q) (h : HF3 K) (hi : 0 < h.ni) (hj : 0 < h.nj)
-    (hsx : 0 < h.scale.x) (hsz : 0 < h.scale.z) (o d : V3 K) (maxToi : K) (hx : d.x ≠ 0) (hz : d.z ≠ 0) (wx wz : K)
-    (n : Nat) (s : St) (t0 : K) (ht0 : 0 ≤ t0) (hin : InCell sq q h s.cell (o.x + t0 * d.x) (o.z + t0 * d.z))
-    (hinv : WInv sq q h wx wz s) (out : List (Int × Int))
-    (hres : walkLoop (@walkStep K (fieldNum K sq) q h o d maxToi) n s = .done out) :
-    (∀ c ∈ s.out, c ∈ out) ∧
-    ∀ i j : Int, ∀ t : K, 0 ≤ i → i < h.ni → 0 ≤ j → j < h.nj → t0 ≤ t → t ≤ maxToi → Meets sq q h o d wx wz i j t →
-      (i, j) ∈ out := by
-  letI := fieldNum K sq
-  have hLx := XL_lines sq q hq h hj hsx
-  have hLz := ZL_lines sq q hq h hi hsz
-  induction n generalizing s t0 with
-  | zero => simp [walkLoop] at hres
-  | succ n ih =>
-    obtain ⟨h1, h2, hstay, hmove⟩ := tracks_core sq q hq h hi hj hsx hsz o d hx hz s.cell t0 hin
-    obtain ⟨di, dj, hcm, hne, hin'⟩ := hmove ht0
-    set rx := boundaryTime (XL sq q h) s.cell.2 o.x d.x with hrx
-    set rz := boundaryTime (ZL sq q h) s.cell.1 o.z d.z with hrz
-    have hrx0 : nmax rx 0 = rx := by rw [fieldNum_nmax]; exact max_eq_left (le_trans ht0 h1)
-    have hrz0 : nmax rz 0 = rz := by rw [fieldNum_nmax]; exact max_eq_left (le_trans ht0 h2)
-    have ht' : t0 ≤ min rx rz := le_min h1 h2
-    -- while the centre is in the current cell the footprint lies in the covered block
-    have hblock : ∀ i j : Int, ∀ t : K, 0 ≤ i → i < h.ni → 0 ≤ j → j < h.nj → t0 ≤ t → t ≤ min rx rz →
-        Meets sq q h o d wx wz i j t → (i, j) ∈ s.out := by
-      intro i j t i0 i1 j0 j1 t1 t2 hm
-      have hc := hstay t t1 t2
-      obtain ⟨a1, a2⟩ := axis_footprint hLx wx _ s.cell.2 s.rj.1 s.rj.2 j hc.1 hinv.1 hm.1
-      obtain ⟨b1, b2⟩ := axis_footprint hLz wz _ s.cell.1 s.ri.1 s.ri.2 i hc.2 hinv.2.1 hm.2
-      exact hinv.2.2 i j b1 b2 a1 a2 i0 i1 j0 j1
-    have hstepdef : walkStep q h o d maxToi s = stepWith h d maxToi (nmax rx 0) (nmax rz 0) s := rfl
-    unfold walkLoop at hres
-    split at hres
-    · -- the step stops
-      rename_i out' hst
-      injection hres with hres
-      subst hres
-      rw [hstepdef] at hst
-      obtain ⟨e, hwhy⟩ := stepWith_stop_spec h d maxToi _ _ s _ hst
-      subst e
-      refine ⟨fun c hc => hc, ?_⟩
-      intro i j t i0 i1 j0 j1 t1 t2 hm
-      rcases hwhy with ⟨hbx, hbz⟩ | ⟨di', dj', hcm', hwhy'⟩
-      · rw [hrx0] at hbx; rw [hrz0] at hbz
-        exact hblock i j t i0 i1 j0 j1 t1 (le_trans t2 (le_of_lt (lt_min hbx hbz))) hm
-      · have e : some (di', dj') = some (di, dj) := by rw [← hcm', ← hcm]
-        injection e with e
-        injection e with e1 e2
-        subst e1; subst e2
-        by_cases hle : t ≤ min rx rz
-        · exact hblock i j t i0 i1 j0 j1 t1 hle hm
-        · exfalso
-          have hgt : min rx rz ≤ t := le_of_lt (not_le.1 hle)
-          rcases hwhy' with h0 | hl | hl
-          · exact hne h0
-          · refine axis_left hLz wz (o.z + min rx rz * d.z) (o.z + t * d.z) d.z (s.cell.1 + di') (s.ri.1 + di') (s.ri.2 + di') i h.ni
-              hin'.2 (hinv.2.1.shift hLz di') hl ⟨fun hd => ?_, fun hd => ?_⟩ hm.2 ⟨i0, i1⟩
-            · have := mul_le_mul_of_nonneg_right hgt hd; linarith
-            · have := mul_le_mul_of_nonpos_right hgt hd; linarith
-          · refine axis_left hLx wx (o.x + min rx rz * d.x) (o.x + t * d.x) d.x (s.cell.2 + dj') (s.rj.1 + dj') (s.rj.2 + dj') j h.nj
-              hin'.1 (hinv.1.shift hLx dj') hl ⟨fun hd => ?_, fun hd => ?_⟩ hm.1 ⟨j0, j1⟩
-            · have := mul_le_mul_of_nonneg_right hgt hd; linarith
-            · have := mul_le_mul_of_nonpos_right hgt hd; linarith
-    · cases hres
-    · -- the step goes on
-      rename_i s' hst
-      rw [hstepdef] at hst
-      obtain ⟨di', dj', hcm', -, hcell, hri, hrj, -⟩ := stepWith_cont_spec h d maxToi _ _ s s' hst
-      have e : some (di', dj') = some (di, dj) := by rw [← hcm', ← hcm]
-      injection e with e
-      injection e with e1 e2
-      subst e1; subst e2
-      obtain ⟨hcov', hmono⟩ := step_block_covered h d maxToi _ _ s s' hst hinv.2.2
-      have hinv' : WInv sq q h wx wz s' := by
-        refine ⟨?_, ?_, hcov'⟩
-        · rw [hcell, hrj]; exact hinv.1.shift hLx dj'
-        · rw [hcell, hri]; exact hinv.2.1.shift hLz di'
-      have hin'' : InCell sq q h s'.cell (o.x + min rx rz * d.x) (o.z + min rx rz * d.z) := by rw [hcell]; exact hin'
-      obtain ⟨m1, c1⟩ := ih s' (min rx rz) (le_trans ht0 ht') hin'' hinv' hres
-      refine ⟨fun c hc => m1 c (hmono c hc), ?_⟩
-      intro i j t i0 i1 j0 j1 t1 t2 hm
-      by_cases hle : t ≤ min rx rz
-      · exact m1 _ (hmono _ (hblock i j t i0 i1 j0 j1 t1 hle hm))
-      · exact c1 i j t i0 i1 j0 j1 (le_of_lt (not_le.1 hle)) t2 hm
-
 /-! ## the start state -/
 
 theorem XL_floor_le (q : Quant K) (hq : LawfulQuant q) (h : HF3 K) (hi : 0 < h.ni) (hj : 0 < h.nj)
@@ -398,6 +305,317 @@ theorem walkInit_spec {K : Type} [Num K] (q : Quant K) (h : HF3 K) (aabb2 : Aabb
     subst hs
     exact ⟨toi, heq, ho.symm, rfl, rfl, rfl⟩
 
+/-! ## velocities with a zero horizontal component -/
+
+theorem realMax_nonneg : (0 : K) ≤ @realMax K (fieldNum K sq) := by
+  unfold realMax
+  rw [fieldNum_ofRat]
+  exact Rat.cast_nonneg.2 (by decide +kernel)
+
+/-- a zero velocity component never moves the cell along its axis (any boundary times) -/
+theorem cellMove_zero_z {K : Type} [Num K] (d : V3 K) (tx tz : K) (di dj : Int) (hz : sgn d.z = none)
+    (hcm : cellMove d tx tz = some (di, dj)) : di = 0 := by
+  unfold cellMove at hcm
+  simp only at hcm
+  split at hcm
+  · cases hcm
+  · cases hcm
+  · rename_i a b ha hb
+    injection hcm with hcm
+    injection hcm with e1 e2
+    subst e1
+    split at hb
+    · rw [hz] at hb; cases hb
+    · injection hb with hb; exact hb.symm
+
+theorem cellMove_zero_x {K : Type} [Num K] (d : V3 K) (tx tz : K) (di dj : Int) (hx : sgn d.x = none)
+    (hcm : cellMove d tx tz = some (di, dj)) : dj = 0 := by
+  unfold cellMove at hcm
+  simp only at hcm
+  split at hcm
+  · cases hcm
+  · cases hcm
+  · rename_i a b ha hb
+    injection hcm with hcm
+    injection hcm with e1 e2
+    subst e2
+    split at ha
+    · rw [hx] at ha; cases ha
+    · injection ha with ha; exact ha.symm
+
+private theorem sgn_zero (x : K) (hx : x = 0) : @sgn K (fieldNum K sq) x = none := by
+  subst hx; simp [sgn]
+
+private theorem sgn_eq_sgnI (x : K) (hx : x ≠ 0) : @sgn K (fieldNum K sq) x = some (sgnI x) := by
+  rcases lt_or_gt_of_ne hx with hneg | hpos
+  · simp [sgn, sgnI, hneg, not_lt.2 (le_of_lt hneg)]
+  · simp [sgn, sgnI, hpos]
+
+private theorem boundaryTime_zero (L : Int → K) (c : Int) (o : K) :
+    @boundaryTime K (fieldNum K sq) L c o 0 = @realMax K (fieldNum K sq) := by
+  simp [boundaryTime]
+
+/-- `cellMove` when the `z` component of the velocity is zero (its boundary time `tz ≥ 0` is `Real::MAX`): an answer exists only
+if the `x` boundary comes strictly first; the row does not move and the column moves by `signum(d.x)` if the `x` test fires -/
+theorem cellMove_static_z {K : Type} [Num K] (d : V3 K) (tx tz : K) (di dj : Int) (hz : sgn d.z = none) (h0z : 0 ≤ tz)
+    (hcm : cellMove d tx tz = some (di, dj)) :
+    ¬ (tz ≤ tx) ∧ di = 0 ∧ ((0 ≤ tx ∧ tx ≤ tz) → sgn d.x = some dj) := by
+  unfold cellMove at hcm
+  simp only at hcm
+  split at hcm
+  · cases hcm
+  · cases hcm
+  · rename_i a b ha hb
+    injection hcm with hcm
+    injection hcm with e1 e2
+    subst e1; subst e2
+    have hnle : ¬ (tz ≤ tx) := by
+      intro hle
+      simp only [h0z, hle, decide_true, Bool.and_self, if_true, hz] at hb
+      cases hb
+    refine ⟨hnle, ?_, ?_⟩
+    · simp only [hnle, decide_false, Bool.and_false, Bool.false_eq_true, if_false] at hb
+      injection hb with hb; exact hb.symm
+    · intro hx'
+      simp only [hx'.1, hx'.2, decide_true, Bool.and_self, if_true] at ha
+      exact ha
+
+theorem cellMove_static_x {K : Type} [Num K] (d : V3 K) (tx tz : K) (di dj : Int) (hx : sgn d.x = none) (h0x : 0 ≤ tx)
+    (hcm : cellMove d tx tz = some (di, dj)) :
+    ¬ (tx ≤ tz) ∧ dj = 0 ∧ ((0 ≤ tz ∧ tz ≤ tx) → sgn d.z = some di) := by
+  unfold cellMove at hcm
+  simp only at hcm
+  split at hcm
+  · cases hcm
+  · cases hcm
+  · rename_i a b ha hb
+    injection hcm with hcm
+    injection hcm with e1 e2
+    subst e1; subst e2
+    have hnle : ¬ (tx ≤ tz) := by
+      intro hle
+      simp only [h0x, hle, decide_true, Bool.and_self, if_true, hx] at ha
+      cases ha
+    refine ⟨hnle, ?_, ?_⟩
+    · simp only [hnle, decide_false, Bool.and_false, Bool.false_eq_true, if_false] at ha
+      injection ha with ha; exact ha.symm
+    · intro hz'
+      simp only [hz'.1, hz'.2, decide_true, Bool.and_self, if_true] at hb
+      exact hb
+
+/-- one axis of a state: a moving axis keeps the slack relation `Rel`, a static axis (zero velocity component) keeps a range that
+contains the fixed footprint of the box -/
+def AxInv (L : Int → K) (wx d xc : K) (c r1 r2 : Int) : Prop :=
+  (d ≠ 0 ∧ Rel L wx c r1 r2) ∨ (d = 0 ∧ ∀ k : Int, xc - wx < L (k + 1) → L k < xc + wx → r1 ≤ k ∧ k < r2)
+
+theorem AxInv.footprint {L : Int → K} {w : K} (hL : Lines L w) {wx d xc : K} {c r1 r2 : Int} (ha : AxInv L wx d xc c r1 r2)
+    (t : K) (k : Int) (hin : L c ≤ xc + t * d ∧ xc + t * d ≤ L (c + 1))
+    (hov : xc + t * d - wx < L (k + 1) ∧ L k < xc + t * d + wx) : r1 ≤ k ∧ k < r2 := by
+  rcases ha with ⟨_, hr⟩ | ⟨hd, hs⟩
+  · exact axis_footprint hL wx _ c r1 r2 k hin hr hov
+  · subst hd
+    simp only [mul_zero, add_zero] at hov
+    exact hs k hov.1 hov.2
+
+theorem AxInv.shift {L : Int → K} {w : K} (hL : Lines L w) {wx d xc : K} {c r1 r2 : Int} (ha : AxInv L wx d xc c r1 r2)
+    (m : Int) (hm : d = 0 → m = 0) : AxInv L wx d xc (c + m) (r1 + m) (r2 + m) := by
+  rcases ha with ⟨hd, hr⟩ | ⟨hd, hs⟩
+  · exact Or.inl ⟨hd, hr.shift hL m⟩
+  · have := hm hd; subst this
+    simp only [add_zero]
+    exact Or.inr ⟨hd, hs⟩
+
+/-- the third `break`, for a moving or a static axis -/
+theorem AxInv.left {L : Int → K} {w : K} (hL : Lines L w) {wx d xc : K} {c r1 r2 : Int} (ha : AxInv L wx d xc c r1 r2)
+    (t' t : K) (htt : t' ≤ t) (k : Int) (n : Nat) (hin : L c ≤ xc + t' * d ∧ xc + t' * d ≤ L (c + 1))
+    (hleft : (0 ≤ d ∧ (n : Int) ≤ r1) ∨ (d ≤ 0 ∧ r2 ≤ 0))
+    (hov : xc + t * d - wx < L (k + 1) ∧ L k < xc + t * d + wx) : ¬ (0 ≤ k ∧ k < (n : Int)) := by
+  rcases ha with ⟨_, hr⟩ | ⟨hd, hs⟩
+  · refine axis_left hL wx (xc + t' * d) (xc + t * d) d c r1 r2 k n hin hr hleft ⟨fun h0 => ?_, fun h0 => ?_⟩ hov
+    · have := mul_le_mul_of_nonneg_right htt h0; linarith
+    · have := mul_le_mul_of_nonpos_right htt h0; linarith
+  · subst hd
+    simp only [mul_zero, add_zero] at hov
+    have := hs k hov.1 hov.2
+    rintro ⟨k0, k1⟩
+    rcases hleft with ⟨_, hn⟩ | ⟨_, hn⟩ <;> omega
+
+/-- **One step of the centre ray, any velocity with a non-zero horizontal component.**  As `tracks_core`, with the move of the
+cell stated for whatever `cellMove` answers (`none` = the walk gives up with `signumOfZero`, not `.done`). -/
+theorem tracks_core_gen (q : Quant K) (hq : LawfulQuant q) (h : HF3 K) (hi : 0 < h.ni) (hj : 0 < h.nj)
+    (hsx : 0 < h.scale.x) (hsz : 0 < h.scale.z) (o d : V3 K) (hxz : d.x ≠ 0 ∨ d.z ≠ 0)
+    (c : Int × Int) (t : K) (ht : 0 ≤ t) (hin : InCell sq q h c (o.x + t * d.x) (o.z + t * d.z)) :
+    letI := fieldNum K sq
+    let rx := boundaryTime (XL sq q h) c.2 o.x d.x
+    let rz := boundaryTime (ZL sq q h) c.1 o.z d.z
+    0 ≤ rx ∧ 0 ≤ rz ∧ (∀ u, t ≤ u → u ≤ min rx rz → InCell sq q h c (o.x + u * d.x) (o.z + u * d.z)) ∧
+    (∀ di dj : Int, cellMove d (nmax rx 0) (nmax rz 0) = some (di, dj) → ¬ (di = 0 ∧ dj = 0) ∧
+      InCell sq q h (c.1 + di, c.2 + dj) (o.x + min rx rz * d.x) (o.z + min rx rz * d.z)) := by
+  letI := fieldNum K sq
+  have hLx := XL_lines sq q hq h hj hsx
+  have hLz := ZL_lines sq q hq h hi hsz
+  have hR := realMax_nonneg (K := K) sq
+  have hR0 : nmax (realMax : K) 0 = realMax := by rw [fieldNum_nmax]; exact max_eq_left hR
+  by_cases hx : d.x = 0
+  · -- only z moves
+    have hz : d.z ≠ 0 := by
+      rcases hxz with h1 | h1
+      · exact absurd hx h1
+      · exact h1
+    obtain ⟨az1, az2, az3⟩ := axis_tracks sq (ZL sq q h) _ hLz.pos hLz.succ c.1 o.z d.z t hz hin.2
+    have hbx : boundaryTime (XL sq q h) c.2 o.x d.x = (realMax : K) := by rw [hx]; exact boundaryTime_zero sq _ _ _
+    have hmx : ∀ u : K, o.x + u * d.x = o.x := by intro u; rw [hx]; ring
+    simp only [hbx]
+    set rz := boundaryTime (ZL sq q h) c.1 o.z d.z with hrz
+    have h0 : (0 : K) ≤ rz := le_trans ht az1
+    have hrz0 : nmax rz 0 = rz := by rw [fieldNum_nmax]; exact max_eq_left h0
+    have hinx := hin.1
+    rw [hmx] at hinx
+    refine ⟨hR, h0, ?_, ?_⟩
+    · intro u hu1 hu2
+      refine ⟨?_, az2 u hu1 (le_trans hu2 (min_le_right _ _))⟩
+      rw [hmx]; exact hinx
+    · intro di dj hcm
+      rw [hrz0, hR0] at hcm
+      obtain ⟨hnle, hdj, hs⟩ := cellMove_static_x d _ _ di dj (sgn_zero sq _ hx) hR hcm
+      have hlt : rz < (realMax : K) := not_le.1 hnle
+      have hdi : some di = some (sgnI d.z) := by rw [← hs ⟨h0, le_of_lt hlt⟩, sgn_eq_sgnI sq _ hz]
+      injection hdi with hdi
+      subst hdi; subst hdj
+      refine ⟨by intro h0; have := h0.1; unfold sgnI at this; split at this <;> omega, ?_⟩
+      rw [min_eq_right (le_of_lt hlt)]
+      simp only [InCell, add_zero]
+      refine ⟨?_, az3⟩
+      rw [hmx]; exact hinx
+  · by_cases hz : d.z = 0
+    · -- only x moves
+      obtain ⟨ax1, ax2, ax3⟩ := axis_tracks sq (XL sq q h) _ hLx.pos hLx.succ c.2 o.x d.x t hx hin.1
+      have hbz : boundaryTime (ZL sq q h) c.1 o.z d.z = (realMax : K) := by rw [hz]; exact boundaryTime_zero sq _ _ _
+      have hmz : ∀ u : K, o.z + u * d.z = o.z := by intro u; rw [hz]; ring
+      simp only [hbz]
+      set rx := boundaryTime (XL sq q h) c.2 o.x d.x with hrx
+      have h0 : (0 : K) ≤ rx := le_trans ht ax1
+      have hrx0 : nmax rx 0 = rx := by rw [fieldNum_nmax]; exact max_eq_left h0
+      have hinz := hin.2
+      rw [hmz] at hinz
+      refine ⟨h0, hR, ?_, ?_⟩
+      · intro u hu1 hu2
+        refine ⟨ax2 u hu1 (le_trans hu2 (min_le_left _ _)), ?_⟩
+        rw [hmz]; exact hinz
+      · intro di dj hcm
+        rw [hrx0, hR0] at hcm
+        obtain ⟨hnle, hdi, hs⟩ := cellMove_static_z d _ _ di dj (sgn_zero sq _ hz) hR hcm
+        have hlt : rx < (realMax : K) := not_le.1 hnle
+        have hdj : some dj = some (sgnI d.x) := by rw [← hs ⟨h0, le_of_lt hlt⟩, sgn_eq_sgnI sq _ hx]
+        injection hdj with hdj
+        subst hdj; subst hdi
+        refine ⟨by intro h0; have := h0.2; unfold sgnI at this; split at this <;> omega, ?_⟩
+        rw [min_eq_left (le_of_lt hlt)]
+        simp only [InCell, add_zero]
+        refine ⟨ax3, ?_⟩
+        rw [hmz]; exact hinz
+    · obtain ⟨h1, h2, hstay, hmove⟩ := tracks_core sq q hq h hi hj hsx hsz o d hx hz c t hin
+      obtain ⟨di, dj, hcm, hne, hin'⟩ := hmove ht
+      refine ⟨le_trans ht h1, le_trans ht h2, hstay, ?_⟩
+      intro di' dj' hcm'
+      have e : some (di', dj') = some (di, dj) := by rw [← hcm', ← hcm]
+      injection e with e
+      injection e with e1 e2
+      subst e1; subst e2
+      exact ⟨hne, hin'⟩
+
+/-! ## the loop -/
+
+/-- the box of half-widths `(wx, wz)` centred on the ray point at time `t` meets the open rectangle of cell `(i, j)` -/
+def Meets (q : Quant K) (h : HF3 K) (o d : V3 K) (wx wz : K) (i j : Int) (t : K) : Prop :=
+  (o.x + t * d.x - wx < XL sq q h (j + 1) ∧ XL sq q h j < o.x + t * d.x + wx) ∧
+  (o.z + t * d.z - wz < ZL sq q h (i + 1) ∧ ZL sq q h i < o.z + t * d.z + wz)
+
+/-- invariant of the loop: each axis keeps its range relation (`AxInv`), and the block is covered by the trace -/
+def WInv (q : Quant K) (h : HF3 K) (o d : V3 K) (wx wz : K) (s : St) : Prop :=
+  AxInv (XL sq q h) wx d.x o.x s.cell.2 s.rj.1 s.rj.2 ∧ AxInv (ZL sq q h) wz d.z o.z s.cell.1 s.ri.1 s.ri.2 ∧
+    Covered h.ni h.nj s.ri s.rj s.out
+
+set_option maxHeartbeats 1000000 in
+/-- **The loop covers the path of the box.**  Any velocity with a non-zero horizontal component.  From a state whose cell contains
+the centre at time `t0 ≥ 0` and which satisfies `WInv`, a loop that ends normally (`.done`) has in its trace every in-field cell
+whose open rectangle the box meets at some time of `[t0, max_time_of_impact]` — whichever of the `break`s ended it — and never
+drops a cell from the trace. -/
+theorem walkLoop_covers_path (q : Quant K) (hq : LawfulQuant q) (h : HF3 K) (hi : 0 < h.ni) (hj : 0 < h.nj)
+    (hsx : 0 < h.scale.x) (hsz : 0 < h.scale.z) (o d : V3 K) (maxToi : K) (hxz : d.x ≠ 0 ∨ d.z ≠ 0) (wx wz : K)
+    (n : Nat) (s : St) (t0 : K) (ht0 : 0 ≤ t0) (hin : InCell sq q h s.cell (o.x + t0 * d.x) (o.z + t0 * d.z))
+    (hinv : WInv sq q h o d wx wz s) (out : List (Int × Int))
+    (hres : walkLoop (@walkStep K (fieldNum K sq) q h o d maxToi) n s = .done out) :
+    (∀ c ∈ s.out, c ∈ out) ∧
+    ∀ i j : Int, ∀ t : K, 0 ≤ i → i < h.ni → 0 ≤ j → j < h.nj → t0 ≤ t → t ≤ maxToi → Meets sq q h o d wx wz i j t →
+      (i, j) ∈ out := by
+  letI := fieldNum K sq
+  have hLx := XL_lines sq q hq h hj hsx
+  have hLz := ZL_lines sq q hq h hi hsz
+  induction n generalizing s t0 with
+  | zero => simp [walkLoop] at hres
+  | succ n ih =>
+    obtain ⟨h1, h2, hstay, hmove⟩ := tracks_core_gen sq q hq h hi hj hsx hsz o d hxz s.cell t0 ht0 hin
+    set rx := boundaryTime (XL sq q h) s.cell.2 o.x d.x with hrx
+    set rz := boundaryTime (ZL sq q h) s.cell.1 o.z d.z with hrz
+    have hrx0 : nmax rx 0 = rx := by rw [fieldNum_nmax]; exact max_eq_left h1
+    have hrz0 : nmax rz 0 = rz := by rw [fieldNum_nmax]; exact max_eq_left h2
+    have ht' : (0 : K) ≤ min rx rz := le_min h1 h2
+    -- while the centre is in the current cell the footprint lies in the covered block
+    have hblock : ∀ i j : Int, ∀ t : K, 0 ≤ i → i < h.ni → 0 ≤ j → j < h.nj → t0 ≤ t → t ≤ min rx rz →
+        Meets sq q h o d wx wz i j t → (i, j) ∈ s.out := by
+      intro i j t i0 i1 j0 j1 t1 t2 hm
+      have hc := hstay t t1 t2
+      obtain ⟨a1, a2⟩ := hinv.1.footprint hLx t j hc.1 hm.1
+      obtain ⟨b1, b2⟩ := hinv.2.1.footprint hLz t i hc.2 hm.2
+      exact hinv.2.2 i j b1 b2 a1 a2 i0 i1 j0 j1
+    have hstepdef : walkStep q h o d maxToi s = stepWith h d maxToi (nmax rx 0) (nmax rz 0) s := rfl
+    unfold walkLoop at hres
+    split at hres
+    · -- the step stops
+      rename_i out' hst
+      injection hres with hres
+      subst hres
+      rw [hstepdef] at hst
+      obtain ⟨e, hwhy⟩ := stepWith_stop_spec h d maxToi _ _ s _ hst
+      subst e
+      refine ⟨fun c hc => hc, ?_⟩
+      intro i j t i0 i1 j0 j1 t1 t2 hm
+      rcases hwhy with ⟨hbx, hbz⟩ | ⟨di', dj', hcm', hwhy'⟩
+      · rw [hrx0] at hbx; rw [hrz0] at hbz
+        exact hblock i j t i0 i1 j0 j1 t1 (le_trans t2 (le_of_lt (lt_min hbx hbz))) hm
+      · obtain ⟨hne, hin'⟩ := hmove di' dj' hcm'
+        by_cases hle : t ≤ min rx rz
+        · exact hblock i j t i0 i1 j0 j1 t1 hle hm
+        · exfalso
+          have hgt : min rx rz ≤ t := le_of_lt (not_le.1 hle)
+          rcases hwhy' with h0 | hl | hl
+          · exact hne h0
+          · exact (hinv.2.1.shift hLz di' (fun hd => cellMove_zero_z d _ _ di' dj' (sgn_zero sq _ hd) hcm')).left hLz
+              (min rx rz) t hgt i h.ni hin'.2 hl hm.2 ⟨i0, i1⟩
+          · exact (hinv.1.shift hLx dj' (fun hd => cellMove_zero_x d _ _ di' dj' (sgn_zero sq _ hd) hcm')).left hLx
+              (min rx rz) t hgt j h.nj hin'.1 hl hm.1 ⟨j0, j1⟩
+    · cases hres
+    · -- the step goes on
+      rename_i s' hst
+      rw [hstepdef] at hst
+      obtain ⟨di', dj', hcm', -, hcell, hri, hrj, -⟩ := stepWith_cont_spec h d maxToi _ _ s s' hst
+      obtain ⟨-, hin'⟩ := hmove di' dj' hcm'
+      obtain ⟨hcov', hmono⟩ := step_block_covered h d maxToi _ _ s s' hst hinv.2.2
+      have hinv' : WInv sq q h o d wx wz s' := by
+        refine ⟨?_, ?_, hcov'⟩
+        · rw [hcell, hrj]
+          exact hinv.1.shift hLx dj' (fun hd => cellMove_zero_x d _ _ di' dj' (sgn_zero sq _ hd) hcm')
+        · rw [hcell, hri]
+          exact hinv.2.1.shift hLz di' (fun hd => cellMove_zero_z d _ _ di' dj' (sgn_zero sq _ hd) hcm')
+      have hin'' : InCell sq q h s'.cell (o.x + min rx rz * d.x) (o.z + min rx rz * d.z) := by rw [hcell]; exact hin'
+      obtain ⟨m1, c1⟩ := ih s' (min rx rz) ht' hin'' hinv' hres
+      refine ⟨fun c hc => m1 c (hmono c hc), ?_⟩
+      intro i j t i0 i1 j0 j1 t1 t2 hm
+      by_cases hle : t ≤ min rx rz
+      · exact m1 _ (hmono _ (hblock i j t i0 i1 j0 j1 t1 hle hm))
+      · exact c1 i j t i0 i1 j0 j1 (le_of_lt (not_le.1 hle)) t2 hm
+
 /-! ## the whole walk -/
 
 theorem Lines.mono {L : Int → K} {w : K} (hL : Lines L w) (a b : Int) (hab : a ≤ b) : L a ≤ L b := by
@@ -414,11 +632,40 @@ private theorem neq_zero_false (x : K) (hx : x ≠ 0) : @neq K (fieldNum K sq) x
   simp only [neq, Bool.and_eq_true, decide_eq_true_eq] at e
   exact hx (le_antisymm e.1 e.2)
 
-/-- **The 3-D walk covers the path of the box from the pre-advance time on** (both horizontal velocity components non-zero).  A
-walk that ends normally has in its trace every in-field cell whose open rectangle the moving box `aabb2 + t·vel` meets at some time
-`t` between the pre-advance time `toi` (the answer of `cast_local_ray` on the Minkowski box) and `max_time_of_impact`. -/
+
+private theorem neq_zero_true (x : K) (hx : x = 0) : @neq K (fieldNum K sq) x 0 = true := by
+  subst hx; simp [neq]
+
+/-- the start range of a static axis (not enlarged) contains the fixed footprint of the box -/
+theorem static_init_x (q : Quant K) (hq : LawfulQuant q) (hc : LawfulCeil q) (h : HF3 K) (hi : 0 < h.ni) (hj : 0 < h.nj)
+    (hsx : 0 < h.scale.x) (hsz : 0 < h.scale.z) (b : Aabb3 K) (k : Int)
+    (h1 : b.mins.x < XL sq q h (k + 1)) (h2 : XL sq q h k < b.maxs.x) :
+    (@rangeInAabb K (fieldNum K sq) q h b).2.1 ≤ k ∧ k < (@rangeInAabb K (fieldNum K sq) q h b).2.2 := by
+  have hL := XL_lines sq q hq h hj hsx
+  have hf : XL sq q h (@rangeInAabb K (fieldNum K sq) q h b).2.1 ≤ b.mins.x := XL_floor_le sq q hq h hi hj hsx hsz b.mins.x
+  have hg : b.maxs.x ≤ XL sq q h (@rangeInAabb K (fieldNum K sq) q h b).2.2 := XL_ceil_ge sq q hq hc h hj hsx b.maxs.x
+  constructor
+  · have := hL.lt_of_lt _ _ (lt_of_le_of_lt hf h1); omega
+  · exact hL.lt_of_lt _ _ (lt_of_lt_of_le h2 hg)
+
+theorem static_init_z (q : Quant K) (hq : LawfulQuant q) (hc : LawfulCeil q) (h : HF3 K) (hi : 0 < h.ni) (hj : 0 < h.nj)
+    (hsx : 0 < h.scale.x) (hsz : 0 < h.scale.z) (b : Aabb3 K) (k : Int)
+    (h1 : b.mins.z < ZL sq q h (k + 1)) (h2 : ZL sq q h k < b.maxs.z) :
+    (@rangeInAabb K (fieldNum K sq) q h b).1.1 ≤ k ∧ k < (@rangeInAabb K (fieldNum K sq) q h b).1.2 := by
+  have hL := ZL_lines sq q hq h hi hsz
+  have hf : ZL sq q h (@rangeInAabb K (fieldNum K sq) q h b).1.1 ≤ b.mins.z := ZL_floor_le sq q hq h hi hj hsx hsz b.mins.z
+  have hg : b.maxs.z ≤ ZL sq q h (@rangeInAabb K (fieldNum K sq) q h b).1.2 := ZL_ceil_ge sq q hq hc h hi hsz b.maxs.z
+  constructor
+  · have := hL.lt_of_lt _ _ (lt_of_le_of_lt hf h1); omega
+  · exact hL.lt_of_lt _ _ (lt_of_lt_of_le h2 hg)
+
+set_option maxHeartbeats 1000000 in
+/-- **The 3-D walk covers the path of the box from the pre-advance time on** — every velocity (both, one or no horizontal
+component).  A walk that ends normally has in its trace every in-field cell whose open rectangle the moving box `aabb2 + t·vel`
+meets at some time `t` between the pre-advance time `toi` (the answer of `cast_local_ray` on the Minkowski box) and
+`max_time_of_impact`. -/
 theorem walk_covers_from_entry (q : Quant K) (hq : LawfulQuant q) (hc : LawfulCeil q) (h : HF3 K) (hi : 0 < h.ni) (hj : 0 < h.nj)
-    (hsx : 0 < h.scale.x) (hsz : 0 < h.scale.z) (aabb2 : Aabb3 K) (vel : V3 K) (maxToi : K) (hx : vel.x ≠ 0) (hz : vel.z ≠ 0)
+    (hsx : 0 < h.scale.x) (hsz : 0 < h.scale.z) (aabb2 : Aabb3 K) (vel : V3 K) (maxToi : K)
     (fuel : Nat) (out : List (Int × Int))
     (hw : @walk K (fieldNum K sq) q false h aabb2 vel maxToi fuel = .done out) :
     ∃ toi : K, @Aabb.castLocalRay K (fieldNum K sq) (@realMax K (fieldNum K sq))
@@ -429,15 +676,14 @@ theorem walk_covers_from_entry (q : Quant K) (hq : LawfulQuant q) (hc : LawfulCe
         aabb2.mins.x + t * vel.x < XL sq q h (j + 1) → XL sq q h j < aabb2.maxs.x + t * vel.x →
         aabb2.mins.z + t * vel.z < ZL sq q h (i + 1) → ZL sq q h i < aabb2.maxs.z + t * vel.z → (i, j) ∈ out) := by
   letI := fieldNum K sq
+  have hLx := XL_lines sq q hq h hj hsx
+  have hLz := ZL_lines sq q hq h hi hsz
   unfold walk at hw
   split at hw
   · cases hw
   · rename_i o s0 hinit
     obtain ⟨toi, hcast, ho, hcell, hri, hrj⟩ := walkInit_spec q h aabb2 vel maxToi o s0 hinit
     have hcov := walkInit_covered q h aabb2 vel maxToi o s0 hinit
-    have hnzx := neq_zero_false sq vel.x hx
-    have hnzz := neq_zero_false sq vel.z hz
-    simp only [hnzx, hnzz, Bool.false_and, Bool.false_eq_true, if_false] at hw hri hrj
     subst ho
     refine ⟨toi, hcast, ?_⟩
     intro htoi i j t i0 i1 j0 j1 t1 t2 ox1 ox2 oz1 oz2
@@ -449,51 +695,102 @@ theorem walk_covers_from_entry (q : Quant K) (hq : LawfulQuant q) (hc : LawfulCe
       simp only [Aabb3.halfExtents, V3.sub, V3.smul, lit_half6]
     have hwz : (Aabb3.halfExtents aabb2).z = (aabb2.maxs.z - aabb2.mins.z) * (1 / 2) := by
       simp only [Aabb3.halfExtents, V3.sub, V3.smul, lit_half6]
-    have hbcx : (Aabb3.center (⟨aabb2.mins.add (vel.smul toi), aabb2.maxs.add (vel.smul toi)⟩ : Aabb3 K)).x
-        = (Aabb3.center aabb2).x + toi * vel.x := by
-      simp only [Aabb3.center, V3.center, V3.add, V3.smul, lit_half6]; ring
-    have hbcz : (Aabb3.center (⟨aabb2.mins.add (vel.smul toi), aabb2.maxs.add (vel.smul toi)⟩ : Aabb3 K)).z
-        = (Aabb3.center aabb2).z + toi * vel.z := by
-      simp only [Aabb3.center, V3.center, V3.add, V3.smul, lit_half6]; ring
-    have hbwx : (Aabb3.halfExtents (⟨aabb2.mins.add (vel.smul toi), aabb2.maxs.add (vel.smul toi)⟩ : Aabb3 K)).x
-        = (Aabb3.halfExtents aabb2).x := by
-      simp only [Aabb3.halfExtents, V3.sub, V3.add, V3.smul, lit_half6]; ring
-    have hbwz : (Aabb3.halfExtents (⟨aabb2.mins.add (vel.smul toi), aabb2.maxs.add (vel.smul toi)⟩ : Aabb3 K)).z
-        = (Aabb3.halfExtents aabb2).z := by
-      simp only [Aabb3.halfExtents, V3.sub, V3.add, V3.smul, lit_half6]; ring
+    set b : Aabb3 K := ⟨aabb2.mins.add (vel.smul toi), aabb2.maxs.add (vel.smul toi)⟩ with hb
+    have hbcx : (Aabb3.center b).x = (Aabb3.center aabb2).x + toi * vel.x := by
+      simp only [hb, Aabb3.center, V3.center, V3.add, V3.smul, lit_half6]; ring
+    have hbcz : (Aabb3.center b).z = (Aabb3.center aabb2).z + toi * vel.z := by
+      simp only [hb, Aabb3.center, V3.center, V3.add, V3.smul, lit_half6]; ring
+    have hbwx : (Aabb3.halfExtents b).x = (Aabb3.halfExtents aabb2).x := by
+      simp only [hb, Aabb3.halfExtents, V3.sub, V3.add, V3.smul, lit_half6]; ring
+    have hbwz : (Aabb3.halfExtents b).z = (Aabb3.halfExtents aabb2).z := by
+      simp only [hb, Aabb3.halfExtents, V3.sub, V3.add, V3.smul, lit_half6]; ring
+    have hbmx : b.mins.x = aabb2.mins.x + vel.x * toi ∧ b.maxs.x = aabb2.maxs.x + vel.x * toi := by
+      simp only [hb, V3.add, V3.smul]; exact ⟨trivial, trivial⟩
+    have hbmz : b.mins.z = aabb2.mins.z + vel.z * toi ∧ b.maxs.z = aabb2.maxs.z + vel.z * toi := by
+      simp only [hb, V3.add, V3.smul]; exact ⟨trivial, trivial⟩
     have hin : InCell sq q h s0.cell ((Aabb3.center aabb2).x + toi * vel.x) ((Aabb3.center aabb2).z + toi * vel.z) := by
       rw [hcell, ← hbcx, ← hbcz]
       exact cellAtPoint_contains sq q hq h hi hj hsx hsz _
-    have hinv : WInv sq q h (Aabb3.halfExtents aabb2).x (Aabb3.halfExtents aabb2).z s0 := by
-      refine ⟨?_, ?_, hcov⟩
-      · rw [hcell, hrj, ← hbwx]
-        exact rel_init_x sq q hq hc h hi hj hsx hsz _
-      · rw [hcell, hri, ← hbwz]
-        exact rel_init_z sq q hq hc h hi hj hsx hsz _
-    refine (walkLoop_covers_path sq q hq h hi hj hsx hsz (Aabb3.center aabb2) vel maxToi hx hz _ _ fuel s0 toi htoi hin hinv out
-      hw).2 i j t i0 i1 j0 j1 t1 t2 ⟨⟨?_, ?_⟩, ⟨?_, ?_⟩⟩
-    · rw [hcx, hwx]; linarith
-    · rw [hcx, hwx]; linarith
-    · rw [hcz, hwz]; linarith
-    · rw [hcz, hwz]; linarith
+    -- the axis invariants of the start state
+    have hax : AxInv (XL sq q h) (Aabb3.halfExtents aabb2).x vel.x (Aabb3.center aabb2).x s0.cell.2 s0.rj.1 s0.rj.2 := by
+      by_cases hx : vel.x = 0
+      · right
+        refine ⟨hx, ?_⟩
+        intro k k1 k2
+        rw [hrj, neq_zero_true sq _ hx]
+        simp only [if_true]
+        refine static_init_x sq q hq hc h hi hj hsx hsz b k ?_ ?_
+        · rw [hbmx.1, hx]; rw [hcx, hwx] at k1; linarith
+        · rw [hbmx.2, hx]; rw [hcx, hwx] at k2; linarith
+      · left
+        refine ⟨hx, ?_⟩
+        rw [hcell, hrj, neq_zero_false sq _ hx, ← hbwx]
+        simp only [Bool.false_eq_true, if_false]
+        exact rel_init_x sq q hq hc h hi hj hsx hsz b
+    have haz : AxInv (ZL sq q h) (Aabb3.halfExtents aabb2).z vel.z (Aabb3.center aabb2).z s0.cell.1 s0.ri.1 s0.ri.2 := by
+      by_cases hz : vel.z = 0
+      · right
+        refine ⟨hz, ?_⟩
+        intro k k1 k2
+        rw [hri, neq_zero_true sq _ hz]
+        simp only [if_true]
+        refine static_init_z sq q hq hc h hi hj hsx hsz b k ?_ ?_
+        · rw [hbmz.1, hz]; rw [hcz, hwz] at k1; linarith
+        · rw [hbmz.2, hz]; rw [hcz, hwz] at k2; linarith
+      · left
+        refine ⟨hz, ?_⟩
+        rw [hcell, hri, neq_zero_false sq _ hz, ← hbwz]
+        simp only [Bool.false_eq_true, if_false]
+        exact rel_init_z sq q hq hc h hi hj hsx hsz b
+    have hm : Meets sq q h (Aabb3.center aabb2) vel (Aabb3.halfExtents aabb2).x (Aabb3.halfExtents aabb2).z i j t := by
+      refine ⟨⟨?_, ?_⟩, ⟨?_, ?_⟩⟩
+      · rw [hcx, hwx]; linarith
+      · rw [hcx, hwx]; linarith
+      · rw [hcz, hwz]; linarith
+      · rw [hcz, hwz]; linarith
+    by_cases hboth : vel.x = 0 ∧ vel.z = 0
+    · -- no horizontal motion: the cast returns after the initial block
+      rw [neq_zero_true sq _ hboth.1, neq_zero_true sq _ hboth.2] at hw
+      simp only [Bool.and_self, if_true] at hw
+      injection hw with hw
+      subst hw
+      have hc0 := hin
+      have e1 : (Aabb3.center aabb2).x + toi * vel.x = (Aabb3.center aabb2).x + t * vel.x := by rw [hboth.1]; ring
+      have e2 : (Aabb3.center aabb2).z + toi * vel.z = (Aabb3.center aabb2).z + t * vel.z := by rw [hboth.2]; ring
+      rw [e1, e2] at hc0
+      obtain ⟨a1, a2⟩ := hax.footprint hLx t j hc0.1 hm.1
+      obtain ⟨b1, b2⟩ := haz.footprint hLz t i hc0.2 hm.2
+      exact hcov i j b1 b2 a1 a2 i0 i1 j0 j1
+    · have hxz : vel.x ≠ 0 ∨ vel.z ≠ 0 := by
+        by_contra hcon
+        push Not at hcon
+        exact hboth hcon
+      have hnb : (neq vel.x 0 && neq vel.z 0) = false := by
+        rcases hxz with h1 | h1
+        · rw [neq_zero_false sq _ h1]; rfl
+        · rw [neq_zero_false sq _ h1]; exact Bool.and_false _
+      rw [hnb] at hw
+      simp only [Bool.false_eq_true, if_false] at hw
+      exact (walkLoop_covers_path sq q hq h hi hj hsx hsz (Aabb3.center aabb2) vel maxToi hxz _ _ fuel s0 toi htoi hin
+        ⟨hax, haz, hcov⟩ out hw).2 i j t i0 i1 j0 j1 t1 t2 hm
 
-/-- **`walk_covers_full` holds** for every velocity with both horizontal components non-zero: the statement left open in
-`Theorems3.lean`.  Field box containing the grid, valid boxes, `0 ≤ max_time_of_impact ≤ Real::MAX`.  Every in-field cell whose
-open rectangle the moving box meets at some `t ∈ [0, max_time_of_impact]` while it overlaps the vertical range of the field is in
-the trace of a walk that ends normally: after the pre-advance time by `walk_covers_from_entry`, and before it the box is still
-disjoint from the field's box (C04's `aabb_cast_solid_firstHit` for the Minkowski box). -/
+/-- **`walk_covers_full` holds** — the statement left open in `Theorems3.lean`, for every velocity.  Field box containing the
+grid, valid box of the shape, `0 ≤ max_time_of_impact ≤ Real::MAX`.  Every in-field cell whose open rectangle the moving box meets
+at some `t ∈ [0, max_time_of_impact]` while it overlaps the vertical range of the field is in the trace of a walk that ends
+normally: after the pre-advance time by `walk_covers_from_entry`, and before it the box is still disjoint from the field's box
+(C04's `aabb_cast_solid_firstHit` for the Minkowski box). -/
 theorem walk_covers_full_generic (q : Quant K) (hq : LawfulQuant q) (hc : LawfulCeil q) (h : HF3 K) (hi : 0 < h.ni) (hj : 0 < h.nj)
     (hsx : 0 < h.scale.x) (hsz : 0 < h.scale.z)
     (hgx : h.aabb.mins.x ≤ XL sq q h 0 ∧ XL sq q h h.nj ≤ h.aabb.maxs.x)
     (hgz : h.aabb.mins.z ≤ ZL sq q h 0 ∧ ZL sq q h h.ni ≤ h.aabb.maxs.z)
     (aabb2 : Aabb3 K) (hv2 : aabb2.mins.x ≤ aabb2.maxs.x ∧ aabb2.mins.y ≤ aabb2.maxs.y ∧ aabb2.mins.z ≤ aabb2.maxs.z)
-    (vel : V3 K) (maxToi : K) (hm0 : 0 ≤ maxToi) (hmb : maxToi ≤ @realMax K (fieldNum K sq)) (hx : vel.x ≠ 0) (hz : vel.z ≠ 0) :
+    (vel : V3 K) (maxToi : K) (hm0 : 0 ≤ maxToi) (hmb : maxToi ≤ @realMax K (fieldNum K sq)) :
     walk_covers_full sq q h aabb2 vel maxToi := by
   letI := fieldNum K sq
   intro fuel out hw i j t i0 i1 j0 j1 t0 t1 ox1 ox2 oz1 oz2 oy1 oy2
   have hLx := XL_lines sq q hq h hj hsx
   have hLz := ZL_lines sq q hq h hi hsz
-  obtain ⟨toi, hcast, hcov⟩ := walk_covers_from_entry sq q hq hc h hi hj hsx hsz aabb2 vel maxToi hx hz fuel out hw
+  obtain ⟨toi, hcast, hcov⟩ := walk_covers_from_entry sq q hq hc h hi hj hsx hsz aabb2 vel maxToi fuel out hw
   have hwx : (Aabb3.halfExtents aabb2).x = (aabb2.maxs.x - aabb2.mins.x) * (1 / 2) := by
     simp only [Aabb3.halfExtents, V3.sub, V3.smul, lit_half6]
   have hwy : (Aabb3.halfExtents aabb2).y = (aabb2.maxs.y - aabb2.mins.y) * (1 / 2) := by
@@ -537,5 +834,17 @@ example :
     (match r with | .done _ => true | _ => false) = true ∧ ((1, 2) : Int × Int) ∈ r.trace ∧ ((0, 0) : Int × Int) ∈ r.trace ∧
       ((3, 3) : Int × Int) ∉ r.trace := by
   refine ⟨by decide +kernel, by decide +kernel, by decide +kernel, by decide +kernel⟩
+
+
+/-- non-vacuity for a static axis: the same field and box moving along `+x` only (`vel.z = 0`, its boundary time is `Real::MAX`),
+`max_time_of_impact = 5/2`: the walk ends normally; the `z` range is not enlarged (rows 0 only), the columns are entered one by
+one — cell `(0, 3)` is in the trace, row 1 is not. -/
+example :
+    let q : Quant ℚ := ⟨Rat.floor, Rat.ceil, fun i => (i : ℚ)⟩
+    let h : HF3 ℚ := ⟨4, 4, ⟨4, 1, 4⟩, ⟨⟨-2, 0, -2⟩, ⟨2, 1, 2⟩⟩⟩
+    letI := fieldNum ℚ id
+    let r := walk q false h ⟨⟨-7 / 4, 1 / 2, -7 / 4⟩, ⟨-5 / 4, 3 / 2, -5 / 4⟩⟩ ⟨1, 0, 0⟩ (5 / 2) 16
+    (match r with | .done _ => true | _ => false) = true ∧ ((0, 3) : Int × Int) ∈ r.trace ∧ ((1, 0) : Int × Int) ∉ r.trace := by
+  refine ⟨by decide +kernel, by decide +kernel, by decide +kernel⟩
 
 end C06
